@@ -83,17 +83,16 @@ Definition close_list (p : pstate) : pstate + err :=
   end.
 
 Definition lower (b : byte) : byte := if (65 <=? b)%N && (b <=? 90)%N then (b + 32)%N else b.
+Definition is_t (tok : list byte) : bool := match tok with [116%N] | [84%N] => true | _ => false end.
+Definition is_nil_tok (tok : list byte) : bool := match map lower tok with [110; 105; 108]%N => true | _ => false end.
 Definition push_token (p : pstate) (tok : list byte) : pstate :=
-  match tok with
-  | [116%N] | [84%N] => push_val p (TLeaf LTrue)
-  | _ =>
-      if match map lower tok with [110; 105; 108]%N => true | _ => false end then push_val p (TLeaf LNil)
-      else match stack p with
-           | IMark w :: [] => {| stack := []; code := TWrap w (TLeaf (LTok tok)) :: code p |}
-           | IMark w :: rest => {| stack := IVal (TWrap w (TLeaf (LTok tok))) :: rest; code := code p |}
-           | _ => push_val p (TLeaf (LTok tok))
-           end
-  end.
+  if is_t tok then push_val p (TLeaf LTrue)
+  else if is_nil_tok tok then push_val p (TLeaf LNil)
+  else match stack p with
+       | IMark w :: [] => {| stack := []; code := TWrap w (TLeaf (LTok tok)) :: code p |}
+       | IMark w :: rest => {| stack := IVal (TWrap w (TLeaf (LTok tok))) :: rest; code := code p |}
+       | _ => push_val p (TLeaf (LTok tok))
+       end.
 
 (* ---- actions: the bytes found in the mode tables ---- *)
 Inductive action :=
@@ -175,11 +174,11 @@ Definition emit (c : core) (k : lexkind) (lex : list byte) : core :=
   | XString => set_mode (set_p c (push_val (c_p c) (TLeaf (LStr lex)))) MValue
   | XPipe => set_mode (set_p c (push_val (c_p c) (TLeaf (LPipe lex)))) MValue
   | XChar => match lex with
-             | [] => set_err c EParse                     (* '#\' is not a valid character *)
+             | [] => set_mode (set_err c EParse) MValue    (* '#\' is not a valid character *)
              | _ => set_mode (set_p c (push_val (c_p c) (TLeaf (LChar lex)))) MValue
              end
   | XInt => if valid_int (c_base c) lex then set_mode (set_p c (push_val (c_p c) (TLeaf (LInt (c_base c) lex)))) MValue
-            else set_err c EParse                          (* not a valid base-n integer *)
+            else set_mode (set_err c EParse) MValue         (* not a valid base-n integer *)
   | XBits => set_mode (set_p c (push_val (c_p c) (TLeaf (LBits lex)))) MValue
   end.
 
@@ -206,7 +205,7 @@ Definition step_core (esc : byte -> byte) (a : action) (b : byte) (c : core) : c
   | AClose => match close_list (c_p c) with
               | inl p => (set_p c p, LNone)
               | inr e => (set_err c e, LNone) end
-  | ATokenStart => match c_mode c with MToken => (c, LNone) | _ => (set_mode c MToken, LStartHere) end
+  | ATokenStart => match c_mode c with MToken => (c, LGrow) | _ => (set_mode c MToken, LStartHere) end
   | ATokenDone => (c, LDone XToken true)
   | ADQuote => (set_modes c MString MString, LStartNext)
   | APipe => (set_modes c MSymbol MSymbol, LStartNext)
@@ -247,7 +246,7 @@ Definition step_core (esc : byte -> byte) (a : action) (b : byte) (c : core) : c
   | AComma => if in_backquote c then (push_mark c WComma, LNone) else (set_err c EParse, LNone)
   | ACommaAt => match stack (c_p c) with
                 | IMark WComma :: rest => (set_p c {| stack := IMark WCommaAt :: rest; code := code (c_p c) |}, LNone)
-                | _ => match c_mode c with MToken => (c, LNone) | _ => (set_mode c MToken, LStartHere) end
+                | _ => match c_mode c with MToken => (c, LGrow) | _ => (set_mode c MToken, LStartHere) end
                 end
   | ABlockStart => (set_mode c MBlockComment, LNone)
   | ABlockEnd0 => (set_mode c MBlockEnd, LNone)
@@ -344,6 +343,7 @@ Definition finish (c : core) (lex_tok lex_str : list byte) : core :=
                 | MRune | MEsc | MSymbol => set_err c EParse
                 | MChar => emit c XChar lex_tok
                 | MInt => emit c XInt lex_tok
+                | MBitVector => emit c XBits lex_tok
                 | _ => c
                 end in
       match c_err c1 with
@@ -421,3 +421,22 @@ Definition s_read (T : tables) (esc : byte -> byte) (text : list byte) : result 
   | Some _ => result_of (s_core s) 0
   | None => result_of (s_finish s) (length text)
   end.
+
+(* ---- S with the two things a caller can ask for: all the objects, or the first one and where it ends ---- *)
+Definition stop_pos (b : byte) (pos : nat) : nat := if N.eqb b 41 || N.eqb b 34 || N.eqb b 124 then S pos else pos.
+Definition has_obj (c : core) : bool := negb (match code (c_p c) with [] => true | _ => false end).
+Definition stopped (one : bool) (c : core) : bool := match c_err c with Some _ => true | None => one && has_obj c end.
+Fixpoint s_scan (T : tables) (esc : byte -> byte) (one : bool) (s : sstate) (text : list byte) (pos : nat) : sstate * nat :=
+  match text with
+  | [] => (s, pos)
+  | b :: rest =>
+      let s' := s_step T esc s b in
+      match c_err (s_core s') with
+      | Some _ => (s', pos)
+      | None => if one && has_obj (s_core s') then (s', stop_pos b pos) else s_scan T esc one s' rest (S pos)
+      end
+  end.
+Definition s_read_from (T : tables) (esc : byte -> byte) (one : bool) (s : sstate) (text : list byte) (base : nat) : result :=
+  let '(s', pos) := s_scan T esc one s text base in
+  if stopped one (s_core s') then result_of (s_core s') pos else result_of (s_finish s') (base + length text).
+Definition s_read_gen (T : tables) (esc : byte -> byte) (one : bool) (text : list byte) : result := s_read_from T esc one s0 text 0.
